@@ -214,6 +214,8 @@ def translate_pattern(pattern: str, flags: int = 0, xsd_version: str = '1.0',
 
             if pos >= pattern_len:
                 regex.append('\\')
+            elif pattern[pos] == '0':
+                raise RegexError("invalid escape sequence '\\0' at position %d: %r" % (pos - 1, pattern))
             elif pattern[pos].isdigit():
                 regex.append('\\%s' % pattern[pos])
                 reference = DIGITS_PATTERN.match(pattern[pos:]).group()  # type: ignore[union-attr]
@@ -268,8 +270,11 @@ def translate_pattern(pattern: str, flags: int = 0, xsd_version: str = '1.0',
                 else:
                     regex.append(p_shortcut_group)
 
-            else:
+            elif pattern[pos] in 'nrtsSdDwW' or not (pattern[pos].isalnum() or pattern[pos] == '_'):
                 regex.append('\\%s' % pattern[pos])
+            else:
+                msg = "invalid escape sequence '\\{}' at position {}: {!r}"
+                raise RegexError(msg.format(pattern[pos], pos - 1, pattern))
         elif ch == '#' and flags & re.VERBOSE:
             regex.append('\\#')  # a normal character for XPath, a comment for Python's verbose mode
         else:
